@@ -188,6 +188,19 @@ let run_op (op : string) (r : rd) : unit =
                             | Expr.ROutside -> put "outside" | Expr.RFuel -> put "fuel")
   | "subst_refs" -> let v = get_kvs r in let e = get_str r in put_str (Expr.subst_refs v e)
   | "py_str_tree" -> put_str (Expr.py_str_tree (get_tree r))
+  | "validate_scope" -> put_res (put_list put_scalar) (Cli.validate_scope (get_str r))
+  | "cli_kwargs" ->
+      let i = get_bool r in let o = get_bool r in let c = get_bool r in let a = get_bool r in
+      let out = get_opt r (fun r -> match next r with "cpp" -> Cli.OCpp | "foam" -> Cli.OFoam | "xml" -> Cli.OXml | "json" -> Cli.OJson | t -> raise (Bad t)) in
+      let sc = get_opt r get_str in
+      let q = get_bool r in let v = get_bool r in let l = get_bool r in
+      let k = Cli.cli_kwargs { Cli.f_ignore_includes = i; f_order = o; f_ignore_comments = c; f_append = a; f_output = out;
+                               f_scope = sc; f_quiet = q; f_verbose = v; f_log = l } in
+      put_bool k.Cli.k_includes; sp (); put_bool k.Cli.k_mode_append; sp (); put_bool k.Cli.k_order; sp ();
+      put_bool k.Cli.k_comments; sp (); put_opt (put_res (put_list put_scalar)) k.Cli.k_scope; sp ();
+      put (match k.Cli.k_output with Cli.OCpp -> "cpp" | Cli.OFoam -> "foam" | Cli.OXml -> "xml" | Cli.OJson -> "json")
+  | "target_file_name" -> let n = get_str r in let p = get_opt r get_str in let sc = get_list r get_scalar in
+                          let o = get_opt r get_str in put_str (Cli.target_file_name n p sc o)
   | _ -> raise (Bad ("op:" ^ op))
 
 let () =
